@@ -9,7 +9,7 @@ import TB.Lemmas.RunD
 import TB.Props.C01
 import TB.Props.C03
 namespace TB
-
+open TB.RD
 /-- effect of one logged operation on the tree -/
 def applyOp (fs : Fs) (o : Op) : Fs :=
   match o.kind with
@@ -23,11 +23,18 @@ def replay (fs : Fs) (ops : List Op) : Fs := ops.foldl applyOp fs
 
 /-- the tree after a run is the replay of its operation log on the initial tree -/
 theorem C11_replay (H : Bytes → Bytes) (inp : RunIn) : (run H inp).fs = replay inp.fs (run H inp).ops := by
-  sorry
+  have e : applyOp = applyOpD := by
+    funext fs o
+    unfold applyOp applyOpD
+    cases o.kind <;> rfl
+  unfold replay
+  rw [e]
+  exact run_replayD H inp
 
 /-- non-mutating operations and failed injected operations do not change the tree -/
 theorem C11_nonmutating_noop (fs : Fs) (o : Op) (h : o.kind.mutating = false) : applyOp fs o = fs := by
-  sorry
+  unfold applyOp
+  cases hk : o.kind <;> simp_all [OpKind.mutating]
 
 /-- every prefix of a run's log consists of confined operations and sound writes only, so the tree at any
     interruption point is the initial tree changed by sound operations alone -/
@@ -38,11 +45,21 @@ theorem C11_prefix_sound (H : Bytes → Bytes) (inp : RunIn) (n : Nat) :
         ∃ t ∈ inp.torrents,
           if o.kind = .mkdirs then Path.isPrefixOf (inp.exportDir.path ++ [hex t.infoHash, sData]) o.path
           else Path.isProperPrefixOf (inp.exportDir.path ++ [hex t.infoHash, sData]) o.path) := by
-  sorry
+  intro o ho
+  have hm := List.mem_of_mem_take ho
+  exact ⟨C01_run H inp o hm, C03_confined H inp o hm⟩
 
 /-- a write cut after `j` bytes stores a prefix of sound data at the same offset: positional writes compose -/
 theorem C11_write_split (fs : Fs) (i off : Nat) (d : Bytes) (j : Nat) (h : off ≤ (fs.content i).length) :
     ((fs.writeAt i off (d.take j)).writeAt i (off + min j d.length) (d.drop j)).content i = (fs.writeAt i off d).content i := by
-  sorry
+  have key := list_write_split (fs.content i) (d.take j) (d.drop j) off h
+  simp only [List.length_take, List.take_append_drop] at key
+  obtain ⟨k1, k2⟩ := key
+  have hc1 : (fs.writeAt i off (d.take j)).content i
+      = (fs.content i).take off ++ d.take j ++ (fs.content i).drop (off + min j d.length) := by
+    simp only [Fs.writeAt, Fs.content_setData, if_pos h, List.length_take]
+  simp only [Fs.writeAt.eq_1 (fs.writeAt i off (d.take j)), Fs.content_setData, hc1, if_pos k1]
+  rw [k2]
+  simp only [Fs.writeAt, Fs.content_setData, if_pos h]
 
 end TB
